@@ -244,10 +244,14 @@ func (s *scheduler) syncPoint() {
 // isSyncOp reports whether a call to fn from the code under analysis is a G2
 // scheduling point. tools/instrument (native replay) uses the same rule.
 func isSyncOp(fn *ssa.Function) bool {
-	if fn == nil || fn.Pkg == nil && fn.Signature.Recv() == nil {
+	if fn == nil {
 		return false
 	}
 	var pkg string
+	if o := fn.Origin(); o != nil && o != fn {
+		// an instantiation of a generic function or method (atomic.Pointer[T].Load ...)
+		return isSyncOp(o)
+	}
 	if fn.Pkg != nil {
 		pkg = fn.Pkg.Pkg.Path()
 	} else if o := fn.Object(); o != nil && o.Pkg() != nil {
